@@ -656,6 +656,7 @@ class EqWorld(BaseWorld):
         self.calib = cfg.get('calib')     # calibration mode: residuals are recorded, not judged
         self.resid = {}
         self.n_baseline = 0
+        self.last_obs = self.main_obs = self.twin_obs = None
         self.baseline_keys = set()    # (stream, specification pair) combinations with a baseline miss
         self.checked_keys = set()     # ... that were judged at all
         self.cur_key = None
@@ -1235,7 +1236,8 @@ class EqWorld(BaseWorld):
         if rem > 0:
             signal.setitimer(signal.ITIMER_REAL, rem, 0.25)
         try:
-            with faults.armed(fault) as plan:
+            with faults.armed(fault) as plan, faults.observing() as obs:
+                self.last_obs = obs
                 try:
                     f()
                     out = ('ok', None)
@@ -1341,6 +1343,11 @@ class EqWorld(BaseWorld):
         kw = self.vle_kwargs(pk, before, ev) if op == 'vle' else None
         warm = self.age[name] > 0
         out, fired = self.call(ev.get('fault'), self.eq_callable(s, ev, kw))
+        self.main_obs = self.last_obs
+        if self.main_obs and self.main_obs['cap_hits']:
+            self.stats['probe:solver_left_through_iteration_cap'] += 1
+        if self.main_obs and self.main_obs['outer_capped']:
+            self.stats['probe:outermost_solver_left_through_iteration_cap'] += 1
         if fired:
             self.stats['fault:' + ev['fault']['kind']] += 1
             self.stats['fault_site:' + ev['fault']['site']] += 1
@@ -1584,10 +1591,22 @@ class EqWorld(BaseWorld):
                 d['fresh_stream_residual'] = b['resid']
                 self.baseline_defect(r['clause'], msg + ' [a fresh stream misses it too: '
                                      f"residual {b['resid']:.6g}]", d)
+            elif self.capped(self.main_obs, d):
+                pass
             else:
                 d['fresh_stream_residual'] = b['resid'] if b else None
                 self.fail(r['clause'], msg + (f" [a fresh stream given the same input meets it: residual "
                                               f"{b['resid']:.6g}]" if b else ' [fresh stream: no result]'), d)
+
+    def capped(self, obs, detail=None):
+        """Second identification of the listed known finding KF-C04-4, by call site: during the judged
+        call the OUTERMOST solver was seen (seam S3, passive) to leave through its iteration cap, which thermosteam lets
+        pass silently (checkiter=False).  The result of such a call is unconverged by construction; a missed
+        tolerance clause is then that finding, whether or not a brand-new stream happens to converge."""
+        if CAP_REGION not in self.regions or not obs or not obs.get('outer_capped'):
+            return False
+        self.stats['region:' + CAP_REGION] += 1
+        return True
 
     def baseline_defect(self, clause, msg, detail):
         """The history-free baseline itself misses the clause (known finding BASELINE_REGION)."""
@@ -1808,6 +1827,7 @@ class EqWorld(BaseWorld):
         tb = take_snap(t)
         kw2 = self.vle_kwargs(self.pk(name), tb, ev) if ev['op'] == 'vle' else None
         out, _ = self.call(ev.get('fault'), self.eq_callable(t, ev, kw2))
+        self.twin_obs = self.last_obs
         if out[0] == 'exc' or after is None:
             if (out[0] == 'exc') != (after is None):
                 self.stats['scale:only_one_side_raised'] += 1
@@ -1862,6 +1882,8 @@ class EqWorld(BaseWorld):
             d = dict(detail, fresh_pair_residual=(b['resid'] if b else None))
             if b is not None and not b['resid'] <= MULT[b['clause']] * b['unit']:
                 self.baseline_defect(r['clause'], msg + f" [a fresh pair of streams deviates too: {b['resid']:.6g}]", d)
+            elif self.capped(self.main_obs, d) or self.capped(self.twin_obs, d):
+                pass
             else:
                 self.fail(r['clause'], msg + (f" [a fresh pair of streams given the same inputs agrees: "
                                               f"{b['resid']:.6g}]" if b else ' [fresh pair: no result]'), d)
@@ -2009,6 +2031,7 @@ def _stored(world, ev, key):
 
 
 BASELINE_REGION = 'C04-fresh-baseline-miss'
+CAP_REGION = 'C04-silent-iteration-cap'
 LEVER_REGION = 'C03-lever-rule-clip'
 
 REGIONS = {
